@@ -361,7 +361,7 @@ func isElemOf(t *Term, pred func(*Term) bool) bool {
 
 // isScaleOptsField: term is <scaleOpts param>.<field name>
 func (ck *Check) isScaleOptsField(t *Term, name string) bool {
-	if t == nil || t.Kind != "field" || t.Name != name || len(t.Args) != 1 {
+	if t == nil || t.Kind != "field" || len(t.Args) != 1 {
 		return false
 	}
 	f := field(ck.A.TScaleOpts, name)
